@@ -1,0 +1,12 @@
+//go:build verif
+// +build verif
+
+package ffg
+
+// Verification hooks (build tag "verif"): exported wrappers around the unexported kernels.
+
+// VerifReduce calls reduce.
+func VerifReduce(z *Element) { reduce(z) }
+
+// VerifMulByConstant calls mulByConstant.
+func VerifMulByConstant(z *Element, c uint8) { mulByConstant(z, c) }
